@@ -14,6 +14,7 @@ from clastic.errors import NotFound, MethodNotAllowed, InternalServerError, Forb
 from clastic.sinter import get_arg_names
 from werkzeug.wrappers import Response, Request
 from werkzeug.test import EnvironBuilder
+from harness.util import R, untraced
 
 BODIES = [b'', b'a', b'abcdabcdabcdabcdabcdabcdabcdabcdabcdabcd', b'\x00\xff\x10binary']
 CTYPES = ['text/plain', 'application/octet-stream', 'application/javascript']
@@ -53,6 +54,11 @@ class _GzReq(object):
 
 
 def ob_gzip(kind: int, body_i: int, ctype_i: int, q: int, browser_i: int, comp_rel: int, pre_encoded: bool) -> bool:
+    with untraced():       # all inputs are realised selectors
+        return _ob_gzip(kind, body_i, ctype_i, q, browser_i, comp_rel, pre_encoded)
+
+
+def _ob_gzip(kind, body_i, ctype_i, q, browser_i, comp_rel, pre_encoded):
     """gzip: status kept; when it compresses: client accepts, bytes sent == what gzip_bytes returned (whose
     gunzip is the original body by zlib's contract), Content-Length == len(sent), Vary names Accept-Encoding;
     otherwise the body is untouched."""
@@ -63,7 +69,7 @@ def ob_gzip(kind: int, body_i: int, ctype_i: int, q: int, browser_i: int, comp_r
     data0 = b''.join(inner.response) if kind != 8 else BODIES[body_i] * 2
     if kind == 8:
         inner = _inner(kind, body_i, ctype_i)
-    clen = max(0, len(data0) + comp_rel)          # symbolic length relation chosen by the stub
+    clen = max(0, len(data0) + comp_rel - 2)      # length relation chosen by the stub: len(body) + {-2..1}
     comp = b'Z' * clen
     calls = []
 
@@ -95,7 +101,7 @@ def ob_gzip(kind: int, body_i: int, ctype_i: int, q: int, browser_i: int, comp_r
 def tw_gzip(kind: int, body_i: int, ctype_i: int, q: int, browser_i: int, comp_rel: int, pre_encoded: bool) -> bool:
     inner = _inner(kind, body_i, ctype_i)
     o = GZ.gzip_bytes
-    GZ.gzip_bytes = lambda d, level=6: b'Z' * max(0, len(d) + comp_rel)
+    GZ.gzip_bytes = lambda d, level=6: b'Z' * max(0, len(d) + comp_rel - 2)
     try:
         out = GzipMiddleware().request(lambda: inner, _GzReq(q, None))
     except Exception:
@@ -116,14 +122,22 @@ class _Route(object):
     pattern = '/r'
 
 
-def _real_request(method, cookie):
+QUERIES = ['p=1', '', '_prof_sort=price', '_prof_sort=&_prof=', 'p=1&p=2&format=html', '_prof_sort=calls&callback=cb', 'f=1&script_root=/x']
+
+
+def _real_request(method, cookie, qs='p=1'):
     hdrs = {'Accept-Encoding': 'gzip'}
     if cookie:
         hdrs['Cookie'] = 'clastic_cookie=%s' % cookie
-    return Request(EnvironBuilder(path='/r', method=method, headers=hdrs, query_string='p=1').get_environ())
+    return Request(EnvironBuilder(path='/r', method=method, headers=hdrs, query_string=qs).get_environ())
 
 
-def ob_passthrough(mw_i: int, kind: int, raised: bool, method_i: int, cookie_i: int) -> bool:
+def ob_passthrough(mw_i: int, kind: int, cookie_i: int, qs_i: int, raised: bool, method_i: int) -> bool:
+    with untraced():       # all inputs are realised selectors
+        return _ob_passthrough(mw_i, kind, raised, method_i, cookie_i, qs_i)
+
+
+def _ob_passthrough(mw_i, kind, raised, method_i, cookie_i, qs_i=0):
     """every built-in middleware in default configuration: next()'s outcome is the caller's outcome."""
     mw = _mw(mw_i)
     inner = _inner(kind, 2, 0) if kind <= 8 else ValueError('boom')
@@ -132,7 +146,7 @@ def ob_passthrough(mw_i: int, kind: int, raised: bool, method_i: int, cookie_i: 
         raised = False                  # plain Responses cannot be raised
     status0 = getattr(inner, 'status_code', None)
     data0 = b''.join(inner.response) if (kind <= 7) else None
-    req = _real_request(['GET', 'HEAD', 'POST'][method_i], [None, 'garbage', 'a?b=c'][cookie_i])
+    req = _real_request(['GET', 'HEAD', 'POST'][method_i], [None, 'garbage', 'a?b=c'][cookie_i], QUERIES[qs_i])
 
     def nxt(**kw):
         if raised:
@@ -174,8 +188,8 @@ def ob_passthrough(mw_i: int, kind: int, raised: bool, method_i: int, cookie_i: 
     return True
 
 
-def tw_passthrough(mw_i: int, kind: int, raised: bool, method_i: int, cookie_i: int) -> bool:
-    return raised and kind == 4 and mw_i == 2 and ob_passthrough(mw_i, kind, raised, method_i, cookie_i)
+def tw_passthrough(mw_i: int, kind: int, cookie_i: int, qs_i: int, raised: bool, method_i: int) -> bool:
+    return raised and kind == 4 and mw_i == 2 and ob_passthrough(mw_i, kind, cookie_i, qs_i, raised, method_i)
 
 
 def _scenario(mws):
@@ -203,49 +217,99 @@ def _scenario(mws):
 
     def ep_boom():
         raise ValueError('boom')
-    return Application([('/resp', ep_resp), ('/ctx', ep_ctx, render_basic), ('/redir', ep_redirect),
+
+    def ep_retlong():
+        from clastic.errors import BadRequest
+        return BadRequest('compressible detail ' * 40)
+
+    def ep_raiselong():
+        from clastic.errors import BadGateway
+        raise BadGateway('compressible detail ' * 40)
+    return Application([('/retlong', ep_retlong), ('/raiselong', ep_raiselong), ('/resp', ep_resp), ('/ctx', ep_ctx, render_basic), ('/redir', ep_redirect),
                         ('/r404', ep_raise404), ('/r403', ep_ret403), ('/nb', ep_nb), ('/boom', ep_boom),
                         GET('/getonly', ep_resp)], middlewares=mws)
 
 
-_PATHS = ['/resp', '/ctx', '/redir', '/r404', '/r403', '/nb', '/boom', '/getonly', '/unknown']
+_PATHS = ['/resp', '/ctx', '/redir', '/r404', '/r403', '/nb', '/boom', '/getonly', '/unknown', '/retlong', '/raiselong']
+_ACCEPTS = [None, 'text/html', 'application/json', '*/*']
 
 
-def ob_end_to_end(mw_i: int, path_i: int, method_i: int, gzip_ok: bool) -> bool:
-    """whole application with vs. without the middleware: same status, same decoded body."""
+def _end_to_end(mw_i, path_i, method_i, gzip_ok, qs_i, acc_i):
+    import gzip
     method = ['GET', 'HEAD', 'POST'][method_i]
     hdrs = {'Accept-Encoding': 'gzip'} if gzip_ok else {}
+    if _ACCEPTS[acc_i]:
+        hdrs['Accept'] = _ACCEPTS[acc_i]
     outs = []
     for mws in ([], [_mw(mw_i)]):
         app = _scenario(mws)
-        resp = app.get_local_client().open(_PATHS[path_i], method=method, headers=hdrs)
+        resp = app.get_local_client().open(_PATHS[path_i], method=method, headers=hdrs, query_string=QUERIES[qs_i])
         body = resp.get_data()
         if resp.headers.get('Content-Encoding') == 'gzip':
-            import gzip
             if not gzip_ok:
                 return False
-            if resp.headers.get('Content-Length') != str(len(body)):
+            if method != 'HEAD' and resp.headers.get('Content-Length') != str(len(body)):
                 return False
-            body = gzip.decompress(body)
+            if 'accept-encoding' not in (resp.headers.get('Vary') or '').lower():
+                return False
+            if method != 'HEAD':
+                try:
+                    body = gzip.decompress(body)
+                except Exception:
+                    return False            # labelled gzip but not decodable
+        if _PATHS[path_i] == '/boom':
+            body = b''            # the 500 body quotes the traceback, whose frames legitimately differ
         outs.append((resp.status_code, body))
     return outs[0] == outs[1]
 
 
-def confirm_passthrough(mw_i, kind, raised, method_i, cookie_i):
+def ob_end_to_end(mw_i: int, path_i: int, method_i: int, gzip_ok: bool, qs_i: int, acc_i: int) -> bool:
+    """whole application with vs. without the middleware through the WSGI client: same status, same decoded body.
+    All inputs are selectors: they are realised (solver-driven case split) and the run is executed natively."""
+    mw_i, path_i, method_i, qs_i, acc_i = R(mw_i), R(path_i), R(method_i), R(qs_i), R(acc_i)
+    gzip_ok = True if gzip_ok else False
+    with untraced():
+        return _end_to_end(mw_i, path_i, method_i, gzip_ok, qs_i, acc_i)
+
+
+def confirm_end_to_end(mw_i, path_i, method_i, gzip_ok, qs_i, acc_i):
+    return not _end_to_end(mw_i, path_i, method_i, gzip_ok, qs_i, acc_i)
+
+
+def confirm_passthrough(mw_i, kind, cookie_i, qs_i, raised, method_i):
     # map the unit outcome kinds to scenario routes
     path = {4: '/unknown', 5: '/getonly', 6: '/boom', 7: '/nb'}.get(kind)
     if path is None:
         return True
     m = 1 if False else (2 if kind == 5 else 0)
     for g in (True, False):
-        if not ob_end_to_end(mw_i, _PATHS.index(path), m, g):
+        if not _end_to_end(mw_i, _PATHS.index(path), m, g, qs_i, 0):
             return True
     if kind == 4 and not raised:
-        return not ob_end_to_end(mw_i, _PATHS.index('/r403'), 0, True)
+        return not _end_to_end(mw_i, _PATHS.index('/r403'), 0, True, qs_i, 0)
     return False
 
 
 def confirm_gzip(kind, body_i, ctype_i, q, browser_i, comp_rel, pre_encoded):
     if kind in (4, 5, 6, 7):
-        return confirm_passthrough(0, kind, False, 0, 0)
+        return confirm_passthrough(0, kind, 0, 0, False, 0)
     return True
+
+
+def end_to_end_sweep(mw_i):
+    """validation leg (plain executions, not a solver claim): the full product for one middleware"""
+    bad = []
+    n = 0
+    for path_i in range(len(_PATHS)):
+        for method_i in range(3):
+            for gzip_ok in (False, True):
+                for qs_i in range(len(QUERIES)):
+                    for acc_i in range(len(_ACCEPTS)):
+                        n += 1
+                        try:
+                            ok = _end_to_end(mw_i, path_i, method_i, gzip_ok, qs_i, acc_i)
+                        except Exception as e:
+                            ok = False
+                        if not ok:
+                            bad.append((mw_i, path_i, method_i, gzip_ok, qs_i, acc_i))
+    return n, bad
